@@ -362,6 +362,38 @@ func idRule(c *core.Ctx) {
 	}
 	if !okStart {
 		problems = append(problems, "the id does not start right after `id:`")
+	} else if bo, ok := take.Low.(*ssa.BinOp); ok {
+		// the octets are taken only where the key was found
+		for _, side := range []ssa.Value{bo.X, bo.Y} {
+			if call, ok := isStringsIndex(side); ok {
+				found := false
+				for x := take.Block(); x != nil && x.Idom() != nil; x = x.Idom() {
+					d := x.Idom()
+					ifi, isIf := d.Instrs[len(d.Instrs)-1].(*ssa.If)
+					if !isIf || d.Succs[0] == d.Succs[1] {
+						continue
+					}
+					cmp, isB := ifi.Cond.(*ssa.BinOp)
+					if !isB || cmp.X != ssa.Value(call) {
+						continue
+					}
+					k, isK := constInt(cmp.Y)
+					if !isK {
+						continue
+					}
+					vt, vf := viaEdge(d, x)
+					switch {
+					case cmp.Op == token.EQL && k == -1 && vf, cmp.Op == token.NEQ && k == -1 && vt,
+						cmp.Op == token.LSS && k == 0 && vf, cmp.Op == token.GEQ && k == 0 && vt,
+						cmp.Op == token.GTR && k == -1 && vt, cmp.Op == token.LEQ && k == -1 && vf:
+						found = true
+					}
+				}
+				if !found {
+					problems = append(problems, "the ten octets are taken on a path where `id:` has not been found")
+				}
+			}
+		}
 	}
 	// exact guard: a dominating fact equal to len(s) - high >= 0, none stronger
 	want := p.LenOf(s).Add(p.LinOf(take.High), -1)
@@ -507,6 +539,37 @@ func keysRule(c *core.Ctx, rel, name, finder string, table []receiptKey, smgp bo
 			problems = append(problems, "field "+want.field+" is never extracted")
 		case g.key != want.key || g.backup != want.backup || g.width != want.width:
 			problems = append(problems, fmt.Sprintf("field %s is extracted with key %q backup %q width %d, expected %q %q %d", want.field, g.key, g.backup, g.width, want.key, want.backup, want.width))
+		}
+	}
+	if smgp {
+		idSet := false
+		for _, b := range fn.Blocks {
+			for _, ins := range b.Instrs {
+				st, ok := ins.(*ssa.Store)
+				if !ok {
+					continue
+				}
+				fa, ok := st.Addr.(*ssa.FieldAddr)
+				if !ok {
+					continue
+				}
+				if _, f, ok := fieldOfAddr(fa); !ok || f.Name() != "ID" {
+					continue
+				}
+				call, ok := st.Val.(*ssa.Call)
+				if !ok || call.Call.StaticCallee() == nil || call.Call.StaticCallee().Name() != "findSMGPIDValue" || call.Call.Args[0] != ssa.Value(fn.Params[0]) {
+					continue
+				}
+				idSet = true
+				for _, rb := range rets {
+					if !call.Block().Dominates(rb) {
+						idSet = false
+					}
+				}
+			}
+		}
+		if !idSet {
+			problems = append(problems, "field ID is not filled unconditionally from findSMGPIDValue(receipt text)")
 		}
 	}
 	if len(got) != len(table) {
